@@ -39,6 +39,8 @@ pub enum ZOp {
     ResizeState { size: u32 },
     StateSize,
     LogEvent { len: u32 },
+    /// `count` calls of log_event in a loop; the result is the sum of their return values
+    LogBurst { count: u32, len: u32 },
     ParamSize,
     ParamSection { len: u32, off: u32 },
     Accept,
@@ -49,6 +51,9 @@ pub enum ZOp {
     CombineOr { l: u32, r: u32 },
     SelfBalance,
     SlotTime,
+    /// get_receive_invoker / self_address / owner (0, 1, 2: 32 or 16 bytes into the read buffer) and
+    /// get_policy_section(len <= 32, off) (3)
+    Getter { func: u8, len: u32, off: u32 },
     /// a pointer/length pair outside linear memory for one of the memory-taking functions
     OutOfBounds { func: u8, ptr: u32, len: u32 },
 }
@@ -70,7 +75,7 @@ pub struct ZPlan {
     pub shrunk:   bool,
 }
 
-const HOSTS: [(&str, &[Ty], Option<Ty>); 15] = [
+const HOSTS: [(&str, &[Ty], Option<Ty>); 18] = [
     ("write_state", &[Ty::I32, Ty::I32, Ty::I32], Some(Ty::I32)),
     ("load_state", &[Ty::I32, Ty::I32, Ty::I32], Some(Ty::I32)),
     ("resize_state", &[Ty::I32], Some(Ty::I32)),
@@ -86,7 +91,12 @@ const HOSTS: [(&str, &[Ty], Option<Ty>); 15] = [
     ("get_receive_self_balance", &[], Some(Ty::I64)),
     ("get_slot_time", &[], Some(Ty::I64)),
     ("get_receive_owner", &[Ty::I32], None),
+    ("get_receive_invoker", &[Ty::I32], None),
+    ("get_receive_self_address", &[Ty::I32], None),
+    ("get_policy_section", &[Ty::I32, Ty::I32, Ty::I32], Some(Ty::I32)),
 ];
+
+fn policy_bytes() -> Vec<u8> { (100..140u8).collect() }
 
 fn i32c(x: u32) -> Expr { Expr::I32(x as i32) }
 
@@ -114,12 +124,23 @@ pub fn emit_module(plan: &ZPlan) -> Vec<u8> {
     let n = plan.ops.len().min(MAX_OPS);
     for (i, op) in plan.ops.iter().enumerate().take(MAX_OPS) {
         let rb = RB_BASE + 32 * i as u32;
+        if let ZOp::LogBurst { count, len } = op {
+            // local 2 = loop counter, local 3 = sum of the results
+            body.push(Stmt::LocalSet(3, Expr::I32(0)));
+            body.push(Stmt::Loop(2, (*count).max(1), vec![Stmt::LocalSet(
+                3,
+                Expr::Bin(0x6a, Box::new(Expr::LocalGet(3)), Box::new(Expr::Host(4, vec![i32c(src_for(*len)), i32c(*len)]))),
+            )]));
+            body.push(Stmt::Store(0x37, 0, i32c(RES_BASE + 8 * i as u32), Expr::Un(0xad, Box::new(Expr::LocalGet(3)))));
+            continue;
+        }
         let (h, args): (u32, Vec<Expr>) = match op {
             ZOp::WriteState { len, off } => (0, vec![i32c(src_for(*len)), i32c(*len), i32c(*off)]),
             ZOp::LoadState { len, off } => (1, vec![i32c(rb), i32c((*len).min(32)), i32c(*off)]),
             ZOp::ResizeState { size } => (2, vec![i32c(*size)]),
             ZOp::StateSize => (3, vec![]),
             ZOp::LogEvent { len } => (4, vec![i32c(src_for(*len)), i32c(*len)]),
+            ZOp::LogBurst { .. } => unreachable!(),
             ZOp::ParamSize => (5, vec![]),
             ZOp::ParamSection { len, off } => (6, vec![i32c(rb), i32c((*len).min(32)), i32c(*off)]),
             ZOp::Accept => (7, vec![]),
@@ -137,7 +158,14 @@ pub fn emit_module(plan: &ZPlan) -> Vec<u8> {
             ZOp::CombineOr { l, r } => (11, vec![i32c(*l), i32c(*r)]),
             ZOp::SelfBalance => (12, vec![]),
             ZOp::SlotTime => (13, vec![]),
-            ZOp::OutOfBounds { func, ptr, len } => match func % 5 {
+            ZOp::Getter { func, len, off } => match func % 4 {
+                0 => (15, vec![i32c(rb)]),
+                1 => (16, vec![i32c(rb)]),
+                2 => (14, vec![i32c(rb)]),
+                _ => (17, vec![i32c(rb), i32c((*len).min(32)), i32c(*off)]),
+            },
+            ZOp::OutOfBounds { func, ptr, len } => match func % 6 {
+                5 => (9, vec![Expr::I64(7), Expr::I64(0), i32c(*ptr), i32c(*len), Expr::I64(3), i32c(ZERO_BASE), i32c(0)]),
                 0 => (0, vec![i32c(*ptr), i32c(*len), i32c(0)]),
                 1 => (1, vec![i32c(*ptr), i32c(*len), i32c(0)]),
                 2 => (4, vec![i32c(*ptr), i32c(*len)]),
@@ -170,7 +198,7 @@ pub fn emit_module(plan: &ZPlan) -> Vec<u8> {
             params: vec![Ty::I64],
             result: Some(Ty::I32),
         },
-        locals: vec![Ty::I32],
+        locals: vec![Ty::I32, Ty::I32, Ty::I32],
         body,
         ret:    Some(ret),
     };
@@ -324,6 +352,21 @@ fn model_run(plan: &ZPlan) -> (MOut, u64) {
                     NONE32
                 }
             }
+            ZOp::LogBurst { count, len } => {
+                if src_for(*len) as u64 + *len as u64 > MEM {
+                    return (MOut::Fail, m.min_energy);
+                }
+                let mut sum: u32 = 0;
+                for _ in 0..(*count).max(1) {
+                    if *len <= MAX_LOG_SIZE {
+                        m.min_energy += 500 + 1000 * *len as u64;
+                        sum = sum.wrapping_add(log(&mut m, mem_src(*len)) as u32);
+                    } else {
+                        sum = sum.wrapping_add(u32::MAX);
+                    }
+                }
+                sum as u64
+            }
             ZOp::ParamSize => plan.param.len() as u64,
             ZOp::ParamSection { len, off } => {
                 let len = (*len).min(32) as usize;
@@ -365,8 +408,32 @@ fn model_run(plan: &ZPlan) -> (MOut, u64) {
             }
             ZOp::SelfBalance => 100,
             ZOp::SlotTime => 12345,
+            ZOp::Getter { func, len, off } => match func % 4 {
+                0 => {
+                    rbufs[i].copy_from_slice(&[1u8; 32]);
+                    0
+                }
+                1 => 0, // contract <0,0>: sixteen zero bytes
+                2 => {
+                    rbufs[i].copy_from_slice(&[2u8; 32]);
+                    0
+                }
+                _ => {
+                    let l = (*len).min(32) as usize;
+                    m.min_energy += 10 + l as u64;
+                    let p = policy_bytes();
+                    let off = *off as usize;
+                    let end = off.saturating_add(l).min(p.len());
+                    if off > end {
+                        return (MOut::Fail, m.min_energy);
+                    }
+                    let c = &p[off..end];
+                    rbufs[i][..c.len()].copy_from_slice(c);
+                    c.len() as u64
+                }
+            },
             ZOp::OutOfBounds { func, ptr, len } => {
-                let need = match func % 5 {
+                let need = match func % 6 {
                     4 => 32,
                     _ => *len as u64,
                 };
@@ -455,6 +522,10 @@ pub fn generate(rng: &mut Rng, _tier: Tier) -> ZPlan {
                 ZOp::ResizeState { size }
             }
             8 => ZOp::StateSize,
+            9 if rng.chance(1, 4) => ZOp::LogBurst {
+                count: *rng.pick(&[2u32, 61, 62, 63, 64, 65, 130]),
+                len:   *rng.pick(&[0u32, 1, 3, 513]),
+            },
             9 => ZOp::LogEvent {
                 len: *rng.pick(&[0u32, 1, 64, 511, 512, 513, 4000]),
             },
@@ -496,13 +567,23 @@ pub fn generate(rng: &mut Rng, _tier: Tier) -> ZPlan {
                     ZOp::CombineOr { l, r }
                 }
             }
-            13 => ZOp::SelfBalance,
+            13 => {
+                if rng.coin() {
+                    ZOp::SelfBalance
+                } else {
+                    ZOp::Getter {
+                        func: rng.below(4) as u8,
+                        len:  *rng.pick(&[0u32, 1, 8, 32]),
+                        off:  *rng.pick(&[0u32, 0, 1, 39, 40, 41, u32::MAX]),
+                    }
+                }
+            }
             14 => ZOp::SlotTime,
             _ => {
                 if oob && i == n / 2 {
                     let len = *rng.pick(&[1u32, 7, 33, 64]);
                     ZOp::OutOfBounds {
-                        func: rng.below(5) as u8,
+                        func: rng.below(6) as u8,
                         ptr:  match rng.below(3) {
                             0 => 65536 - len.min(32) + 1,
                             1 => 65536,
@@ -557,7 +638,7 @@ fn run_once(plan: &ZPlan, art: &Art, energy: u64) -> ROut {
         self_balance:    Amount::from_micro_ccd(100),
         sender:          Address::Account(AccountAddress([1u8; 32])),
         owner:           AccountAddress([2u8; 32]),
-        sender_policies: Vec::new(),
+        sender_policies: policy_bytes(),
     };
     let r = v0::invoke_receive(
         art,
